@@ -9,7 +9,7 @@ import (
 
 func init() {
 	register(&propCheck{id: "C17", needRoot: true, run: checkC17,
-		explanation: "Decided statically: at EVERY call site whose callee can reach a storage operation (KVStore.Get/Has/Iterator/ReverseIterator, Iterator.Error, Batch.Set/Delete/Write/WriteSync) and returns an error, the error is not dropped (E1), not swallowed into a nil-error return on its err!=nil edge (E2), every iterator loop in an error-bearing function consults Error() before a success return (E3), no error-bearing function obtains data through a callee that cannot report storage errors (E4), sticky iterator errors are surfaced (E5), no pointer result is dereferenced before its error is examined (E6), and mutex acquire/release is paired on all paths so that a failed write cannot turn into a process abort (LOCK). Each such call site is one fault position the property quantifies over. NOT decided: that the database left behind by a failed write reopens to the state before or after the operation (needs execution), and value-level correctness of what is returned."})
+		explanation: "Decided statically: at EVERY call site whose callee can reach a storage operation (KVStore.Get/Has/Iterator/ReverseIterator, Iterator.Error, Batch.Set/Delete/Write/WriteSync) and returns an error, the error is not dropped (E1), not swallowed into a nil-error return on its err!=nil edge (E2), every iterator loop in an error-bearing function consults Error() before a success return (E3), no error-bearing function obtains data through a callee that cannot report storage errors (E4), sticky iterator errors are surfaced (E5), no pointer result is dereferenced before its error is examined (E6), and mutex acquire/release is paired on all paths so that a failed write cannot turn into a process abort (LOCK). Each such call site is one fault position the property quantifies over. NOT decided: that the database left behind by a failed write reopens to the state before or after the operation (needs execution), and value-level correctness of what is returned. Rules added in the later seeding rounds (each listed with what it decides in this file's rule table) are described in DESIGN.md §3 \"Third and fourth seeding rounds\" and Appendix C3–C5."})
 }
 
 func checkC17(c *Ctx) {
